@@ -81,6 +81,7 @@ void read_crs(
     precondition(f, "Failed to open matrix file");
 
     precondition(read(f, n), "File I/O error");
+    precondition(static_cast<ptrdiff_t>(n) >= 0, "Corrupted matrix file (negative size)");
 
     if (row_beg < 0) row_beg = 0;
     if (row_end < 0) row_end = n;
@@ -101,6 +102,13 @@ void read_crs(
     precondition(read(f, nnz), "File I/O error");
 
     SizeT nnz_beg = ptr.front();
+
+    precondition(static_cast<ptrdiff_t>(ptr.front()) >= 0 && ptr.back() <= nnz,
+            "Corrupted matrix file (row pointers out of range)");
+    for(ptrdiff_t i = 0; i < chunk; ++i)
+        precondition(ptr[i] <= ptr[i+1],
+                "Corrupted matrix file (row pointers are not monotone)");
+
     if (nnz_beg) for(auto &p : ptr) p -= nnz_beg;
 
     col.resize(ptr.back());
